@@ -37,3 +37,25 @@ func init() {
 			"func (lt Lt) NegationBuild(builder Builder) {\n\tGte(lt).Build(builder)\n}", "func (lt Lt) NegationBuild(builder Builder) {\n\tbuilder.WriteQuoted(lt.Column)\n\tbuilder.WriteString(\" >= \")\n\tbuilder.AddVar(builder, lt.Value)\n}"}}},
 	)
 }
+
+func init() {
+	addMutants(
+		Mutant{Name: "c08-count-deletes-where-afterwards", Property: "C08", Rule: "C08.where-kept", Edits: []Edit{{"finisher_api.go",
+			"\ttx.Statement.Dest = count\n\ttx = tx.callbacks.Query().Execute(tx)\n", "\ttx.Statement.Dest = count\n\ttx = tx.callbacks.Query().Execute(tx)\n\tif len(db.Statement.Clauses) == 0 {\n\t\tdelete(tx.Statement.Clauses, \"WHERE\")\n\t}\n"}}},
+		Mutant{Name: "c08-scopes-drop-marker", Property: "C08", Rule: "C08.where-kept", Edits: []Edit{{"callbacks/query.go",
+			"\t\tdb.Statement.Clauses[\"FROM\"] = fromClause", "\t\tdb.Statement.Clauses[\"FROM\"] = fromClause\n\t\tdelete(db.Statement.Clauses, \"soft_delete_enabled\")"}}},
+		Mutant{Name: "c09-assoc-delete-not-skipped-without-keys", Property: "C09", Rule: "C09.assoc-delete", Edits: []Edit{{"callbacks/delete.go",
+			"\t\t\t\tif !withoutConditions && db.AddError(", "\t\t\t\tif (!withoutConditions || rel.Polymorphic != nil) && db.AddError("}}},
+		Mutant{Name: "c09-assoc-delete-flag-from-first-condition-only", Property: "C09", Rule: "C09.assoc-delete", Edits: []Edit{{"callbacks/delete.go",
+			"\t\t\t\tfor _, cond := range queryConds {\n\t\t\t\t\tif c, ok := cond.(clause.IN); ok && len(c.Values) == 0 {\n\t\t\t\t\t\twithoutConditions = true\n\t\t\t\t\t\tbreak\n\t\t\t\t\t}\n\t\t\t\t}\n",
+			"\t\t\t\tif len(queryConds) > 0 {\n\t\t\t\t\tif c, ok := queryConds[0].(clause.IN); ok && len(c.Values) == 0 {\n\t\t\t\t\t\twithoutConditions = true\n\t\t\t\t\t}\n\t\t\t\t}\n"}}},
+		Mutant{Name: "c12-cursor-skips-before-row-loop", Property: "C12", Rule: "C12.returning-cursor", Edits: []Edit{{"scan.go",
+			"\t\t\tfor initialized || rows.Next() {\n\t\t\tBEGIN:", "\t\t\tif update && onConflictDonothing && reflectValue.Len() > 0 {\n\t\t\t\tdb.RowsAffected += 0\n\t\t\t}\n\t\t\tfor initialized || rows.Next() {\n\t\t\tBEGIN:"}}},
+		Mutant{Name: "c13-batches-in-own-transactions", Property: "C13", Rule: "C13.dispatch", Edits: []Edit{{"finisher_api.go",
+			"if tx.SkipDefaultTransaction || reflectLen <= batchSize {", "if tx.SkipDefaultTransaction || reflectLen <= batchSize*2 {"}}},
+		Mutant{Name: "n38-assoc-delete-flag-without-break", Property: "*", Rule: "NEUTRAL", Edits: []Edit{{"callbacks/delete.go",
+			"\t\t\t\t\tif c, ok := cond.(clause.IN); ok && len(c.Values) == 0 {\n\t\t\t\t\t\twithoutConditions = true\n\t\t\t\t\t\tbreak\n\t\t\t\t\t}", "\t\t\t\t\tif in, isIn := cond.(clause.IN); isIn && len(in.Values) == 0 {\n\t\t\t\t\t\twithoutConditions = true\n\t\t\t\t\t}"}}},
+		Mutant{Name: "n39-count-select-restore-renamed", Property: "*", Rule: "NEUTRAL", Edits: []Edit{{"finisher_api.go",
+			"\t\tdefer delete(tx.Statement.Clauses, \"SELECT\")", "\t\tdefer func() { delete(tx.Statement.Clauses, \"SELECT\") }()"}}},
+	)
+}
